@@ -21,6 +21,8 @@ enum K {
     CheckpointFailed,
     /// (invalid_json, which error list, which response-error list) — see `err_list`
     ProviderEvent(bool, u64, u64),
+    JobSpawned(u64),
+    JobEnded(u64),
     Other(u64),
 }
 #[derive(Clone, Debug)]
@@ -100,6 +102,8 @@ fn to_event(e: &Ev) -> Event {
             errors: err_list(*b, "x"),
             response_errors: err_list(*c, "y"),
         },
+        K::JobSpawned(i) => EventKind::ContinuityJobSpawned { job_id: tid(*i), job_kind: "compaction_summarizer_v1".into(), details: None, actor_id: "a".into(), origin: "o".into() },
+        K::JobEnded(i) => EventKind::ContinuityJobEnded { job_id: tid(*i), job_kind: "k2".into(), status: "completed".into(), result: None, error: if i % 2 == 0 { None } else { Some("e".into()) }, actor_id: "a".into(), origin: "o".into() },
         K::Other(v) => other_kind(*v),
     };
     Event { id: format!("{}", e.ident), session_id: format!("s{}", e.ident % 3), timestamp_ms: e.ts, seq: e.seq, kind }
@@ -119,8 +123,8 @@ fn other_kind(v: u64) -> EventKind {
         8 => EventKind::ContinuityProviderCursorUpdated { provider: t(2), endpoint: None, model: Some(t(3)), cursor: Some(json!({"k": t(3)})), action: t(1), reason: None, run_session_id: None, actor_id: t(1), origin: t(1) },
         9 => EventKind::ContinuityCompactionCheckpointCreated { checkpoint_id: t(1), cut_rule_id: t(2), summary_kind: t(3), summary_artifact_id: "b".repeat(64), from_seq: 0, from_message_id: None, to_seq: u64::MAX, to_message_id: Some(t(3)), actor_id: t(1), origin: t(1) },
         10 => EventKind::ContinuityCompactionAutoScheduleDecided { decision_id: t(1), policy_id: t(2), decision: t(3), execute: true, stride_messages: 0, max_new_checkpoints: u32::MAX, block_on_inflight: false, message_count: u64::MAX, cut_rule_id: t(1), planned: vec![rip_kernel::CompactionPlannedCutPoint { target_message_ordinal: 1, to_seq: 2, to_message_id: t(3) }], job_id: None, job_kind: None, reason: None, actor_id: t(1), origin: t(1) },
-        11 => EventKind::ContinuityJobSpawned { job_id: tid(v / 26 % 3), job_kind: t(2), details: None, actor_id: t(1), origin: t(1) },
-        12 => EventKind::ContinuityJobEnded { job_id: tid(v / 26 % 3), job_kind: t(2), status: t(3), result: None, error: Some(t(3)), actor_id: t(1), origin: t(1) },
+        11 => EventKind::ToolTaskStdinWritten { task_id: tid(v / 26 % 3), chunk_b64: t(v / 26) },
+        12 => EventKind::ToolTaskSignalled { task_id: tid(v / 26 % 3), signal: t(v / 26) },
         13 => EventKind::ContinuityRunEnded { run_session_id: t(1), message_id: t(2), reason: t(3), actor_id: None, origin: None },
         14 => EventKind::ContinuityToolSideEffects { run_session_id: t(1), tool_id: t(2), tool_name: t(3), affected_paths: Some(vec![t(3), t(2)]), checkpoint_id: None, actor_id: t(1), origin: t(1) },
         15 => EventKind::ContinuityBranched { parent_thread_id: t(3), parent_seq: u64::MAX, parent_message_id: None, actor_id: t(1), origin: t(1) },
@@ -152,6 +156,8 @@ fn coq_k(k: &K) -> String {
         K::TaskDelta(i, st, c) => format!("KTaskDelta {i} {st} {}", coq_str(c)),
         K::CheckpointFailed => "KCheckpointFailed".into(),
         K::ProviderEvent(a, b, c) => format!("KProviderEvent {} {} {}", coq_bool(*a), coq_bool(*b > 0), coq_bool(*c > 0)),
+        K::JobSpawned(i) => format!("KJobSpawned {i}"),
+        K::JobEnded(i) => format!("KJobEnded {i}"),
         K::Other(_) => "KOther".into(),
     }
 }
@@ -226,6 +232,14 @@ fn run_impl(c: &Case) -> Obs {
             fail = Some((format!("task preview exceeds 8192 bytes for {id}"), "preview_unbounded".into()));
         }
     }
+    out.push(st.jobs.len() as u64);
+    for (id, j) in &st.jobs {
+        out.push(id[1..].parse().unwrap());
+        out.push(match j.status {
+            rip_tui::JobStatus::Running => 0,
+            rip_tui::JobStatus::Ended { .. } => 1,
+        });
+    }
     enc_opt(&mut out, st.start_ms);
     enc_opt(&mut out, st.first_output_ms);
     enc_opt(&mut out, st.end_ms);
@@ -239,6 +253,35 @@ fn run_impl(c: &Case) -> Obs {
             if e.seq != *q {
                 fail = Some((format!("get_by_seq({q}) returned the frame with seq {}", e.seq), "lookup_returns_other_frame".into()));
             }
+        }
+    }
+    // independent oracle: the id-keyed maps hold at most one entry per distinct id seen, and the previews they
+    // hold are bounded by (2 per tool + 3 per task) * 8192 bytes
+    {
+        use std::collections::BTreeSet;
+        let mut tool_ids = BTreeSet::new();
+        let mut task_ids = BTreeSet::new();
+        let mut job_ids = BTreeSet::new();
+        for e in &c.evs {
+            match &e.k {
+                K::ToolStarted(i) => {
+                    tool_ids.insert(*i);
+                }
+                K::TaskSpawned(i) | K::TaskStatus(i, _) => {
+                    task_ids.insert(*i);
+                }
+                K::JobSpawned(i) | K::JobEnded(i) => {
+                    job_ids.insert(*i);
+                }
+                _ => {}
+            }
+        }
+        if st.tools.len() > tool_ids.len() || st.tasks.len() > task_ids.len() || st.jobs.len() > job_ids.len() {
+            fail = Some((format!("maps hold {}/{}/{} entries for {}/{}/{} distinct tool/task/job ids", st.tools.len(), st.tasks.len(), st.jobs.len(), tool_ids.len(), task_ids.len(), job_ids.len()), "map_entries_exceed_distinct_ids".into()));
+        }
+        let held: usize = st.tools.values().map(|t| t.stdout_preview.len() + t.stderr_preview.len()).sum::<usize>() + st.tasks.values().map(|t| t.stdout_preview.len() + t.stderr_preview.len() + t.pty_preview.len()).sum::<usize>();
+        if held > 8192 * (2 * tool_ids.len() + 3 * task_ids.len()) {
+            fail = Some((format!("previews hold {held} bytes for {} tool and {} task ids", tool_ids.len(), task_ids.len()), "preview_unbounded".into()));
         }
     }
     // independent oracle: bounds
@@ -256,18 +299,9 @@ fn run_impl(c: &Case) -> Obs {
     Obs { enc: out, oracle_fail: fail }
 }
 
-/// Totality + determinism of the renderers (layout is not modelled): every overlay, both views,
-/// both modes, degenerate terminal sizes.  Returns a digest of everything rendered.
-fn render_all(c: &Case) -> String {
-    use ratatui::{backend::TestBackend, Terminal};
-    use rip_tui::{render, Overlay, RenderMode};
-    let mut st = TuiState::new(c.max_frames as usize, c.max_out as usize);
-    st.auto_follow = c.af;
-    for e in &c.evs {
-        st.update(to_event(e));
-    }
-    st.set_now_ms(u64::MAX);
-    let overlays = vec![
+fn overlays_for(st: &TuiState) -> Vec<rip_tui::Overlay> {
+    use rip_tui::Overlay;
+    vec![
         Overlay::None,
         Overlay::Activity,
         Overlay::ToolDetail { tool_id: tid(0) },
@@ -278,10 +312,63 @@ fn render_all(c: &Case) -> String {
         Overlay::ErrorDetail { seq: st.last_error_seq.unwrap_or(3) },
         Overlay::ErrorDetail { seq: u64::MAX },
         Overlay::StallDetail,
-    ];
+    ]
+}
+fn state_of(c: &Case) -> TuiState {
+    let mut st = TuiState::new(c.max_frames as usize, c.max_out as usize);
+    st.auto_follow = c.af;
+    for e in &c.evs {
+        st.update(to_event(e));
+    }
+    st.set_now_ms(u64::MAX);
+    st
+}
+/// One draw of `rip_tui::render` into a viewport of w x h cells placed at (ox, oy) inside a larger screen.
+/// Returns the viewport's cells; Err when a cell outside the viewport was written.
+fn draw(st: &TuiState, mode: rip_tui::RenderMode, w: u16, h: u16, ox: u16, oy: u16) -> Result<String, String> {
+    use ratatui::{backend::TestBackend, layout::Rect, Terminal, TerminalOptions, Viewport};
+    let (sw, sh) = (w + 2 * ox, h + 2 * oy);
+    let area = Rect::new(ox, oy, w, h);
+    let mut terminal = Terminal::with_options(TestBackend::new(sw, sh), TerminalOptions { viewport: Viewport::Fixed(area) }).expect("terminal");
+    let mut seen = Rect::default();
+    terminal
+        .draw(|f| {
+            seen = f.area();
+            rip_tui::render(f, st, mode, "input €")
+        })
+        .expect("draw");
+    if seen != area {
+        return Err(format!("frame area {seen:?} differs from the viewport {area:?}"));
+    }
+    let buf = terminal.backend().buffer().clone();
+    if buf.area != Rect::new(0, 0, sw, sh) || buf.content().len() != sw as usize * sh as usize {
+        return Err(format!("screen buffer area {:?} holds {} cells", buf.area, buf.content().len()));
+    }
+    let blank = ratatui::buffer::Cell::default();
+    let mut s = String::new();
+    for y in 0..sh {
+        for x in 0..sw {
+            let cell = &buf.content()[y as usize * sw as usize + x as usize];
+            if x >= ox && x < ox + w && y >= oy && y < oy + h {
+                s.push_str(cell.symbol());
+                s.push('\u{1f}');
+            } else if *cell != blank {
+                return Err(format!("cell ({x},{y}) outside the {w}x{h} viewport at ({ox},{oy}) was written: {:?}", cell.symbol()));
+            }
+        }
+    }
+    Ok(s)
+}
+/// Totality + determinism of the renderers (layout is not modelled): every overlay, both views,
+/// both modes, degenerate terminal sizes; every cell written lies inside the frame area.
+/// Returns a digest of everything rendered.
+fn render_all(c: &Case) -> Result<String, String> {
+    use rip_tui::RenderMode;
+    let mut st = state_of(c);
+    let overlays = overlays_for(&st);
     let mut digest = Distinct::default();
     let mut acc = String::new();
-    for (w, h) in [(20u16, 8u16), (60, 20), (120, 40), (200, 60)] {
+    for (w, h, ox, oy) in [(20u16, 8u16, 0u16, 0u16), (60, 20, 3, 2), (120, 40, 0, 0), (200, 60, 1, 1), (80, 3, 0, 0), (4, 20, 0, 0), (0, 0, 0, 0), (1, 1, 2, 2)] {
         for ov in &overlays {
             for raw in [false, true] {
                 for mode in [RenderMode::Json, RenderMode::Decoded] {
@@ -289,13 +376,7 @@ fn render_all(c: &Case) -> String {
                     if (st.output_view == rip_tui::OutputViewMode::Raw) != raw {
                         st.toggle_output_view();
                     }
-                    let mut terminal = Terminal::new(TestBackend::new(w, h)).expect("terminal");
-                    terminal.draw(|f| render(f, &st, mode, "input €")).expect("draw");
-                    let buf = terminal.backend().buffer().clone();
-                    let mut s = String::new();
-                    for cell in buf.content() {
-                        s.push_str(cell.symbol());
-                    }
+                    let s = draw(&st, mode, w, h, ox, oy)?;
                     digest.add(&s);
                     acc.push_str(&format!("{}:", s.len()));
                 }
@@ -303,7 +384,29 @@ fn render_all(c: &Case) -> String {
         }
     }
     st.open_selected_detail();
-    format!("{acc}{}", digest.count())
+    Ok(format!("{acc}{}", digest.count()))
+}
+/// Every terminal size from 0x0 to 200x60 (step 1 on the quick tier's few sample states): no panic, and nothing
+/// outside the frame area.  The overlay, view and mode rotate with the size so each is met at many sizes.
+fn render_sizes(c: &Case, step: usize) -> Result<u64, String> {
+    use rip_tui::RenderMode;
+    let mut st = state_of(c);
+    let overlays = overlays_for(&st);
+    let mut n = 0u64;
+    for w in (0..=200u16).step_by(step) {
+        for h in (0..=60u16).step_by(step) {
+            let k = (w as usize * 61 + h as usize) / step;
+            st.overlay = overlays[k % overlays.len()].clone();
+            if (k / overlays.len()) % 2 == 1 {
+                st.toggle_output_view();
+            }
+            let mode = if (k / 3) % 2 == 0 { RenderMode::Json } else { RenderMode::Decoded };
+            let (ox, oy) = if k % 7 == 0 { (2, 1) } else { (0, 0) };
+            draw(&st, mode, w, h, ox, oy).map_err(|e| format!("{w}x{h}: {e}"))?;
+            n += 1;
+        }
+    }
+    Ok(n)
 }
 
 /// The error lists a provider frame carries: several DISTINCT messages per frame and across frames (a renderer that
@@ -323,27 +426,99 @@ fn rip_bin() -> std::path::PathBuf {
     let exe = std::env::current_exe().unwrap();
     exe.parent().unwrap().parent().unwrap().parent().unwrap().join("target-cli/debug/rip")
 }
-fn coq_hk(k: &K) -> String {
+fn coq_strs(l: &[String]) -> String {
+    format!("[{}]", l.iter().map(|e| coq_str(e)).collect::<Vec<_>>().join("; "))
+}
+fn coq_ostr(o: &Option<String>) -> String {
+    coq_opt(o, |s| coq_str(s))
+}
+/// what Model/Headless.v (Output view) sees of a frame
+fn coq_hk(k: &EventKind) -> String {
     match k {
-        K::OutputDelta(s) => format!("HDelta {}", coq_str(s)),
-        K::ToolStdout(_, c) => format!("HToolStdout {}", coq_str(c)),
-        K::ToolStderr(_, c) => format!("HToolStderr {}", coq_str(c)),
-        K::ToolFailed(_) => format!("HToolFailed {}", coq_str("boom")),
-        K::ProviderEvent(a, b, c) => format!(
-            "HProvider {} {} {} {}",
-            coq_bool(*a),
-            format!("[{}]", err_list(*b, "x").iter().map(|e| coq_str(e)).collect::<Vec<_>>().join("; ")),
-            format!("[{}]", err_list(*c, "y").iter().map(|e| coq_str(e)).collect::<Vec<_>>().join("; ")),
-            "None"
-        ),
-        K::SessionEnded => "HEnded".into(),
+        EventKind::OutputTextDelta { delta } => format!("HDelta {}", coq_str(delta)),
+        EventKind::ToolStdout { chunk, .. } => format!("HToolStdout {}", coq_str(chunk)),
+        EventKind::ToolStderr { chunk, .. } => format!("HToolStderr {}", coq_str(chunk)),
+        EventKind::ToolFailed { error, .. } => format!("HToolFailed {}", coq_str(error)),
+        EventKind::ProviderEvent { status, errors, response_errors, raw, .. } => {
+            format!("HProvider {} {} {} {}", coq_bool(*status == ProviderEventStatus::InvalidJson), coq_strs(errors), coq_strs(response_errors), coq_ostr(raw))
+        }
+        EventKind::SessionEnded { .. } => "HEnded".into(),
         _ => "HOther".into(),
     }
 }
-/// Runs the real `rip` binary's three headless renderers over the frames; returns per view (stopped_at, bytes).
-fn run_headless(c: &Case) -> Result<Vec<(String, Vec<u8>)>, String> {
+/// what Model/Views.v (raw and metrics views) sees of a frame
+fn coq_mframe(e: &Event) -> String {
+    let k = match &e.kind {
+        EventKind::SessionStarted { .. } => "MSessionStarted".to_string(),
+        EventKind::OutputTextDelta { .. } => "MOutputDelta".to_string(),
+        EventKind::SessionEnded { reason } => format!("MSessionEnded {}", coq_str(reason)),
+        EventKind::OpenResponsesRequestStarted { endpoint, model, request_index, .. } => format!("MReqStarted {} {} {}", request_index, coq_str(endpoint), coq_ostr(model)),
+        EventKind::OpenResponsesResponseHeaders { request_index, status, request_id, content_type } => {
+            format!("MRespHeaders {} {} {} {}", request_index, status, coq_ostr(request_id), coq_ostr(content_type))
+        }
+        EventKind::OpenResponsesResponseFirstByte { request_index } => format!("MFirstByte {request_index}"),
+        EventKind::ProviderEvent { provider, status, errors, response_errors, raw, .. } => format!(
+            "MProvider {} {} {} {} {}",
+            coq_bool(provider == "openresponses"),
+            coq_bool(*status == ProviderEventStatus::InvalidJson),
+            coq_strs(errors),
+            coq_strs(response_errors),
+            coq_ostr(raw)
+        ),
+        EventKind::ToolFailed { error, .. } => format!("MToolFailed {}", coq_str(error)),
+        _ => "MOther".to_string(),
+    };
+    format!("{{| m_ts := {}; m_kind := {} |}}", e.timestamp_ms, k)
+}
+
+/// One line of a frame stream as the headless renderers receive it.
+#[derive(Clone, Debug)]
+enum VLine {
+    /// a well-formed frame and the way its JSON text is laid out (0 compact, 1 padded with blanks, 2 keys in
+    /// alphabetical order, 3 with an unknown extra member)
+    Frame(Event, u8),
+    /// a line that is not a frame (by construction)
+    Junk(String),
+}
+impl VLine {
+    fn text(&self) -> String {
+        match self {
+            VLine::Junk(s) => s.clone(),
+            VLine::Frame(e, v) => {
+                let t = serde_json::to_string(e).unwrap();
+                match v {
+                    1 => format!("  {t} \t"),
+                    2 => serde_json::to_string(&serde_json::to_value(e).unwrap()).unwrap(),
+                    3 => format!("{{\"zz_extra\":[1,{{\"a\":null}}],{}", &t[1..]),
+                    _ => t,
+                }
+            }
+        }
+    }
+}
+#[derive(Clone, Debug, PartialEq)]
+struct ViewOut {
+    /// 0 the lines ran out, 1 stopped after session_ended, 2 a line was refused
+    end: u64,
+    idx: u64,
+    bytes: Vec<u8>,
+    errmsg: String,
+}
+/// Runs the real `rip` binary's three headless renderers (raw, output, metrics — in this order) over several frame
+/// streams in ONE process; every stream starts from a fresh renderer state.
+fn run_rip_batch(cases: &[Vec<String>]) -> Result<Vec<Vec<ViewOut>>, String> {
     use std::io::Write;
     use std::process::{Command, Stdio};
+    let mut input: Vec<u8> = vec![];
+    for (i, c) in cases.iter().enumerate() {
+        if i > 0 {
+            input.extend_from_slice(b"\x1e\n");
+        }
+        for l in c {
+            input.extend_from_slice(l.as_bytes());
+            input.push(b'\n');
+        }
+    }
     let mut child = Command::new(rip_bin())
         .env("RIP_VERIF_RENDER", "1")
         .stdin(Stdio::piped())
@@ -351,34 +526,479 @@ fn run_headless(c: &Case) -> Result<Vec<(String, Vec<u8>)>, String> {
         .stderr(Stdio::piped())
         .spawn()
         .map_err(|e| format!("spawn rip: {e}"))?;
-    {
-        let mut stdin = child.stdin.take().unwrap();
-        for e in &c.evs {
-            let line = serde_json::to_string(&to_event(e)).unwrap();
-            stdin.write_all(line.as_bytes()).unwrap();
-            stdin.write_all(b"\n").unwrap();
-        }
-    }
+    let mut stdin = child.stdin.take().unwrap();
+    // the driver reads its whole input before it writes anything, so writing from a thread is only a safeguard
+    let writer = std::thread::spawn(move || {
+        let _ = stdin.write_all(&input);
+    });
     let out = child.wait_with_output().map_err(|e| format!("wait: {e}"))?;
+    let _ = writer.join();
     if !out.status.success() {
         return Err(format!("rip exited with {:?}: {}", out.status.code(), String::from_utf8_lossy(&out.stderr).chars().take(400).collect::<String>()));
     }
-    // parse "=== view <V> stopped_at <..> bytes <n>\n<n bytes>\n"
+    // "=== case <c> view <V> end <exhausted|stopped i|error i msglen> bytes <n>\n<n bytes>\n"
     let b = out.stdout;
     let mut pos = 0;
-    let mut views = vec![];
+    let mut res: Vec<Vec<ViewOut>> = vec![vec![]; cases.len()];
     while pos < b.len() {
         let nl = b[pos..].iter().position(|x| *x == b'\n').ok_or("no header newline")? + pos;
         let head = String::from_utf8_lossy(&b[pos..nl]).to_string();
-        if !head.starts_with("=== view ") {
+        let w: Vec<&str> = head.split(' ').collect();
+        if w.len() < 8 || w[0] != "===" || w[1] != "case" || w[3] != "view" || w[5] != "end" {
             return Err(format!("bad header {head:?}"));
         }
-        let n: usize = head.rsplit(' ').next().unwrap().parse().map_err(|_| "bad length")?;
-        let body = b[nl + 1..nl + 1 + n].to_vec();
-        views.push((head, body));
+        let ci: usize = w[2].parse().map_err(|_| format!("bad case number in {head:?}"))?;
+        let n: usize = w[w.len() - 1].parse().map_err(|_| format!("bad length in {head:?}"))?;
+        if nl + 1 + n > b.len() || ci >= cases.len() {
+            return Err(format!("truncated output after {head:?}"));
+        }
+        let mut body = b[nl + 1..nl + 1 + n].to_vec();
+        let num = |s: &str| -> Result<u64, String> { s.parse().map_err(|_| format!("bad number in {head:?}")) };
+        let (end, idx, errmsg) = match w[6] {
+            "exhausted" => (0, cases[ci].len() as u64, String::new()),
+            "stopped" => (1, num(w[7])?, String::new()),
+            "error" => {
+                let ml = num(w[8])? as usize;
+                if ml > body.len() {
+                    return Err(format!("bad message length in {head:?}"));
+                }
+                let msg = String::from_utf8_lossy(&body[body.len() - ml..]).to_string();
+                body.truncate(body.len() - ml);
+                (2, num(w[7])?, msg)
+            }
+            _ => return Err(format!("bad end in {head:?}")),
+        };
+        let order = ["Raw", "Output", "Metrics"];
+        if res[ci].len() >= 3 || w[4] != order[res[ci].len()] {
+            return Err(format!("unexpected view in {head:?}"));
+        }
+        res[ci].push(ViewOut { end, idx, bytes: body, errmsg });
         pos = nl + 1 + n + 1;
     }
-    Ok(views)
+    if res.iter().any(|v| v.len() != 3) {
+        return Err("rip printed fewer views than frame streams were sent".into());
+    }
+    Ok(res)
+}
+
+fn enc_view(v: &ViewOut) -> Option<Vec<u64>> {
+    let text = String::from_utf8(v.bytes.clone()).ok()?;
+    let mut out = vec![v.end, v.idx];
+    enc_str(&mut out, &text);
+    Some(out)
+}
+
+fn jtext(r: &mut Rng) -> String {
+    const ALPH: [&str; 16] = ["a", "z", " ", "\"", "\\", "\n", "\t", "\r", "\u{8}", "\u{c}", "\u{1}", "\u{1f}", "\u{7f}", "é", "😀", "/"];
+    let n = *r.pick(&[0, 1, 1, 2, 3, 5, 9]);
+    (0..n).map(|_| *r.pick(&ALPH[..])).collect()
+}
+fn ojtext(r: &mut Rng) -> Option<String> {
+    if r.chance(1, 3) {
+        None
+    } else {
+        Some(jtext(r))
+    }
+}
+fn junk_line(r: &mut Rng, sample: &Event) -> String {
+    let t = serde_json::to_string(sample).unwrap();
+    match r.below(12) {
+        0 => String::new(),
+        1 => " ".into(),
+        2 => "{".into(),
+        3 => "null".into(),
+        4 => "[]".into(),
+        5 => "42".into(),
+        6 => "{}".into(),
+        7 => "{\"type\":\"nope\",\"id\":\"x\",\"session_id\":\"s\",\"timestamp_ms\":1,\"seq\":1}".into(),
+        8 => "{\"type\":\"session_ended\",\"reason\":\"done\",\"id\":\"x\",\"session_id\":\"s\",\"timestamp_ms\":1,\"seq\":\"1\"}".into(),
+        9 => t[..t.len() - 1].to_string(),
+        10 => format!("{t}x"),
+        _ => "{\"type\":\"session_ended\"}".into(),
+    }
+}
+/// A frame stream aimed at the raw and metrics views: timing frames of request 0 and of later requests, provider
+/// frames of two providers, failures, ends with different reasons, frames after the end, lines that are no frames.
+fn gen_vcase(r: &mut Rng) -> Vec<VLine> {
+    let n = r.range(0, 12);
+    let mut ts: u64 = *r.pick(&[0u64, 5, 1000, 1 << 40, u64::MAX - 20]);
+    let mut out = vec![];
+    let junk_ok = r.chance(1, 3);
+    for i in 0..n {
+        ts = match r.below(6) {
+            0 => ts.saturating_sub(r.range(1, 2000)),
+            1 => ts,
+            _ => ts.saturating_add(r.range(1, 900)),
+        };
+        let idx = *r.pick(&[0u64, 0, 0, 1, 2, u64::MAX]);
+        let kind = match r.below(17) {
+            0 | 1 => EventKind::SessionStarted { input: jtext(r) },
+            2 | 3 => EventKind::OutputTextDelta { delta: jtext(r) },
+            4 => EventKind::SessionEnded { reason: jtext(r) },
+            5 | 6 => EventKind::OpenResponsesRequestStarted { endpoint: jtext(r), model: ojtext(r), request_index: idx, kind: "k".into() },
+            7 | 8 => EventKind::OpenResponsesResponseHeaders { request_index: idx, status: *r.pick(&[0u16, 200, 404, 599, u16::MAX]), request_id: ojtext(r), content_type: ojtext(r) },
+            9 => EventKind::OpenResponsesResponseFirstByte { request_index: idx },
+            10 | 11 => EventKind::ProviderEvent {
+                provider: if r.chance(3, 4) { "openresponses".into() } else { jtext(r) },
+                status: r.pick(&[ProviderEventStatus::Event, ProviderEventStatus::Done, ProviderEventStatus::InvalidJson, ProviderEventStatus::InvalidJson]).clone(),
+                event_name: ojtext(r),
+                data: if r.chance(1, 2) { Some(json!({"a": [1, "x"]})) } else { None },
+                raw: ojtext(r),
+                errors: err_list(if r.chance(1, 2) { r.range(1, 4) } else { 0 }, "x"),
+                response_errors: err_list(if r.chance(1, 2) { r.range(1, 4) } else { 0 }, "y\"\n"),
+            },
+            12 => EventKind::ToolFailed { tool_id: tid(r.below(3)), error: jtext(r) },
+            13 => EventKind::ToolStdout { tool_id: tid(0), chunk: jtext(r) },
+            14 => EventKind::ToolStderr { tool_id: tid(0), chunk: jtext(r) },
+            _ => other_kind(r.below(26 * 6)),
+        };
+        let e = Event { id: format!("{i}"), session_id: "s".into(), timestamp_ms: ts, seq: r.below(9), kind };
+        if junk_ok && r.chance(1, 10) {
+            out.push(VLine::Junk(junk_line(r, &e)));
+        }
+        let fmt = *r.pick(&[0u8, 0, 0, 1, 2, 3]);
+        out.push(VLine::Frame(e, fmt));
+    }
+    if r.chance(1, 2) {
+        let e = Event { id: "end".into(), session_id: "s".into(), timestamp_ms: ts.saturating_add(r.range(0, 50)), seq: 99, kind: EventKind::SessionEnded { reason: jtext(r) } };
+        let at = r.range(0, out.len() as u64) as usize;
+        out.insert(at, VLine::Frame(e, *r.pick(&[0u8, 1, 2])));
+    }
+    out
+}
+fn vcase_json(ls: &[VLine]) -> serde_json::Value {
+    json!({"lines": ls.iter().map(|l| l.text()).collect::<Vec<_>>()})
+}
+
+const METRICS_KEYS: [&str; 10] = ["e2e_ms", "openresponses", "provider_errors", "provider_invalid_json", "provider_response_errors", "session_end_reason", "session_ended_ms", "session_started_ms", "tool_failed", "ttft_ms"];
+
+/// The independent oracle on what the real binary printed for one stream (no model involved).
+fn views_oracle(ls: &[VLine], v: &[ViewOut]) -> Option<(String, String)> {
+    // where the caller's loop must end: the first line that is no frame, or the first session_ended
+    let mut want = (0u64, ls.len() as u64);
+    for (i, l) in ls.iter().enumerate() {
+        match l {
+            VLine::Junk(_) => {
+                want = (2, i as u64);
+                break;
+            }
+            VLine::Frame(e, _) if matches!(e.kind, EventKind::SessionEnded { .. }) => {
+                want = (1, i as u64);
+                break;
+            }
+            _ => {}
+        }
+    }
+    for (name, o) in ["raw", "output", "metrics"].iter().zip(v) {
+        if (o.end, o.idx) != want {
+            return Some((format!("{name} view ended with {:?} at line {}, the stream ends with {:?} at line {}", o.end, o.idx, want.0, want.1), "headless_wrong_stop".into()));
+        }
+        if o.end == 2 && !o.errmsg.starts_with("invalid event frame:") {
+            return Some((format!("{name} view failed with {:?}", o.errmsg), "headless_crash".into()));
+        }
+    }
+    // raw view: exactly the lines it was given, each followed by a newline
+    let upto = if want.0 == 1 { want.1 as usize + 1 } else { want.1 as usize };
+    let mut expect: Vec<u8> = vec![];
+    for l in &ls[..upto] {
+        expect.extend_from_slice(l.text().as_bytes());
+        expect.push(b'\n');
+    }
+    if v[0].bytes != expect {
+        return Some(("raw view did not pass the frame lines through unchanged".into(), "raw_not_identity".into()));
+    }
+    // metrics view: nothing until the end frame, then one JSON object with the ten keys
+    if want.0 != 1 {
+        if !v[2].bytes.is_empty() {
+            return Some(("metrics view wrote before session_ended".into(), "metrics_shape".into()));
+        }
+    } else {
+        let ok = std::str::from_utf8(&v[2].bytes).ok().filter(|t| t.ends_with('\n') && t.matches('\n').count() == 1).and_then(|t| serde_json::from_str::<serde_json::Value>(t).ok()).and_then(|j| j.as_object().map(|o| o.keys().map(|k| k.as_str()).collect::<Vec<_>>() == METRICS_KEYS.to_vec())).unwrap_or(false);
+        if !ok {
+            return Some(("metrics view did not write one JSON object with the ten metric keys".into(), "metrics_shape".into()));
+        }
+    }
+    None
+}
+
+// ---------------------------------------------------------------- summary.rs (event_type / event_summary)
+fn stext(r: &mut Rng, lim: u64) -> String {
+    const ALPH: [&str; 22] = ["a", "b", "Z", " ", "\"", "\\", "\n", "\r", "\t", "\0", "\u{1b}", "\u{7f}", "'", "é", "€", "😀", "\u{a0}", "\u{200b}", "\u{301}", "\u{10ffff}", "\u{ad}", "中"];
+    let n = match r.below(9) {
+        0 => 0,
+        1 => 1,
+        2 => lim - 1,
+        3 | 4 => lim,
+        5 => lim + 1,
+        6 => lim + 2,
+        7 => r.range(0, lim + 8),
+        _ => lim * 2 + 3,
+    };
+    let homog = r.chance(1, 3);
+    let unit = *r.pick(&ALPH[..]);
+    (0..n).map(|_| if homog { unit } else { *r.pick(&ALPH[..]) }).collect()
+}
+fn ostext(r: &mut Rng, lim: u64) -> Option<String> {
+    match r.below(4) {
+        0 => None,
+        1 => Some(String::new()),
+        _ => Some(stext(r, lim)),
+    }
+}
+fn num(r: &mut Rng) -> u64 {
+    *r.pick(&[0u64, 1, 9, 10, 99, 100, 12345, 1 << 32, 1 << 63, u64::MAX - 1, u64::MAX, 9_999_999_999_999_999_999, 10_000_000_000_000_000_000])
+}
+const N_KINDS: u64 = 38;
+/// A frame of kind number `tag` (constructor order of Model/Summary.v = match order of summary.rs) and its model term.
+fn gen_summary(r: &mut Rng, tag: u64) -> (EventKind, String) {
+    let cs = |s: &str| coq_str(s);
+    let s16 = |r: &mut Rng| stext(r, 16);
+    let x = || "x".to_string();
+    match tag {
+        0 => {
+            let s = stext(r, 64);
+            (EventKind::SessionStarted { input: s.clone() }, format!("SSessionStarted {}", cs(&s)))
+        }
+        1 => {
+            let s = stext(r, 64);
+            (EventKind::OutputTextDelta { delta: s.clone() }, format!("SOutputTextDelta {}", cs(&s)))
+        }
+        2 => {
+            let s = stext(r, 64);
+            (EventKind::SessionEnded { reason: s.clone() }, format!("SSessionEnded {}", cs(&s)))
+        }
+        3 => {
+            let w = stext(r, 64);
+            let t = ostext(r, 64);
+            (EventKind::ContinuityCreated { workspace: w.clone(), title: t.clone() }, format!("SContinuityCreated {} {}", cs(&w), coq_ostr(&t)))
+        }
+        4 => {
+            let s = stext(r, 64);
+            (EventKind::ContinuityMessageAppended { actor_id: x(), origin: x(), content: s.clone() }, format!("SContinuityMessageAppended {}", cs(&s)))
+        }
+        5 => {
+            let s = s16(r);
+            (EventKind::ContinuityRunSpawned { run_session_id: s.clone(), message_id: stext(r, 16), actor_id: None, origin: None }, format!("SContinuityRunSpawned {}", cs(&s)))
+        }
+        6 => {
+            let run = s16(r);
+            let st = stext(r, 32);
+            let ck = if r.chance(1, 2) { Some(num(r)) } else { None };
+            let nres = r.below(4);
+            let resets = (0..nres).map(|_| rip_kernel::ContextSelectionResetV1 { input: x(), action: x(), reason: x(), ref_: None }).collect();
+            (
+                EventKind::ContinuityContextSelectionDecided {
+                    run_session_id: run.clone(),
+                    message_id: x(),
+                    compiler_id: x(),
+                    compiler_strategy: st.clone(),
+                    limits: json!({}),
+                    compaction_checkpoint: ck.map(|to_seq| rip_kernel::ContextSelectionCompactionCheckpointV1 { checkpoint_id: x(), summary_kind: x(), summary_artifact_id: x(), to_seq }),
+                    compaction_checkpoints: vec![],
+                    resets,
+                    reason: None,
+                    actor_id: x(),
+                    origin: x(),
+                },
+                format!("SContinuityContextSelectionDecided {} {} {} {}", cs(&run), cs(&st), coq_opt(&ck, |n| coq_n(*n)), nres),
+            )
+        }
+        7 => {
+            let (run, b, st) = (s16(r), s16(r), stext(r, 32));
+            (
+                EventKind::ContinuityContextCompiled { run_session_id: run.clone(), bundle_artifact_id: b.clone(), compiler_id: x(), compiler_strategy: st.clone(), from_seq: num(r), from_message_id: None, actor_id: x(), origin: x() },
+                format!("SContinuityContextCompiled {} {} {}", cs(&run), cs(&b), cs(&st)),
+            )
+        }
+        8 => {
+            let (p, a) = (s16(r), s16(r));
+            let prev = s16(r);
+            let (cursor, model): (Option<serde_json::Value>, Option<String>) = match r.below(7) {
+                0 => (None, None),
+                1 => (Some(json!({})), Some(String::new())),
+                2 => (Some(json!({"previous_response_id": 5})), Some(String::new())),
+                3 => (Some(json!("previous_response_id")), Some(String::new())),
+                4 => (Some(serde_json::Value::Null), Some(String::new())),
+                _ => (Some(json!({"previous_response_id": prev.clone(), "other": 1})), Some(prev.clone())),
+            };
+            (
+                EventKind::ContinuityProviderCursorUpdated { provider: p.clone(), endpoint: None, model: None, cursor, action: a.clone(), reason: None, run_session_id: None, actor_id: x(), origin: x() },
+                format!("SContinuityProviderCursorUpdated {} {} {}", cs(&p), cs(&a), coq_ostr(&model)),
+            )
+        }
+        9 => {
+            let (c, su, ru) = (s16(r), s16(r), stext(r, 32));
+            let to = num(r);
+            (
+                EventKind::ContinuityCompactionCheckpointCreated { checkpoint_id: c.clone(), cut_rule_id: ru.clone(), summary_kind: x(), summary_artifact_id: su.clone(), from_seq: num(r), from_message_id: None, to_seq: to, to_message_id: None, actor_id: x(), origin: x() },
+                format!("SContinuityCompactionCheckpointCreated {} {} {} {}", cs(&c), to, cs(&su), cs(&ru)),
+            )
+        }
+        10 => {
+            let (po, de) = (stext(r, 32), stext(r, 32));
+            let job = ostext(r, 16);
+            (
+                EventKind::ContinuityCompactionAutoScheduleDecided { decision_id: x(), policy_id: po.clone(), decision: de.clone(), execute: true, stride_messages: 0, max_new_checkpoints: 1, block_on_inflight: false, message_count: 3, cut_rule_id: x(), planned: vec![], job_id: job.clone(), job_kind: None, reason: None, actor_id: x(), origin: x() },
+                format!("SContinuityCompactionAutoScheduleDecided {} {} {}", cs(&po), cs(&de), coq_ostr(&job)),
+            )
+        }
+        11 => {
+            let (jk, ji) = (stext(r, 32), s16(r));
+            (EventKind::ContinuityJobSpawned { job_id: ji.clone(), job_kind: jk.clone(), details: None, actor_id: x(), origin: x() }, format!("SContinuityJobSpawned {} {}", cs(&jk), cs(&ji)))
+        }
+        12 => {
+            let (jk, ji, st) = (stext(r, 32), s16(r), stext(r, 32));
+            (
+                EventKind::ContinuityJobEnded { job_id: ji.clone(), job_kind: jk.clone(), status: st.clone(), result: None, error: ostext(r, 16), actor_id: x(), origin: x() },
+                format!("SContinuityJobEnded {} {} {}", cs(&jk), cs(&ji), cs(&st)),
+            )
+        }
+        13 => {
+            let (run, re) = (s16(r), stext(r, 32));
+            (EventKind::ContinuityRunEnded { run_session_id: run.clone(), message_id: x(), reason: re.clone(), actor_id: None, origin: None }, format!("SContinuityRunEnded {} {}", cs(&run), cs(&re)))
+        }
+        14 => {
+            let (run, tool) = (s16(r), stext(r, 32));
+            let np = if r.chance(1, 3) { None } else { Some(r.below(12)) };
+            (
+                EventKind::ContinuityToolSideEffects { run_session_id: run.clone(), tool_id: x(), tool_name: tool.clone(), affected_paths: np.map(|n| (0..n).map(|i| format!("p{i}")).collect()), checkpoint_id: None, actor_id: x(), origin: x() },
+                format!("SContinuityToolSideEffects {} {} {}", cs(&run), cs(&tool), coq_opt(&np, |n| coq_n(*n))),
+            )
+        }
+        15 => {
+            let (p, q) = (s16(r), num(r));
+            (EventKind::ContinuityBranched { parent_thread_id: p.clone(), parent_seq: q, parent_message_id: None, actor_id: x(), origin: x() }, format!("SContinuityBranched {} {}", cs(&p), q))
+        }
+        16 => {
+            let (p, q) = (s16(r), num(r));
+            (
+                EventKind::ContinuityHandoffCreated { from_thread_id: p.clone(), from_seq: q, from_message_id: None, summary_artifact_id: None, summary_markdown: ostext(r, 16), actor_id: x(), origin: x() },
+                format!("SContinuityHandoffCreated {} {}", cs(&p), q),
+            )
+        }
+        17 => {
+            let s = stext(r, 64);
+            (EventKind::ToolStarted { tool_id: x(), name: s.clone(), args: json!({"a": 1}), timeout_ms: None }, format!("SToolStarted {}", cs(&s)))
+        }
+        18 => {
+            let s = stext(r, 64);
+            (EventKind::ToolStdout { tool_id: x(), chunk: s.clone() }, format!("SToolStdout {}", cs(&s)))
+        }
+        19 => {
+            let s = stext(r, 64);
+            (EventKind::ToolStderr { tool_id: x(), chunk: s.clone() }, format!("SToolStderr {}", cs(&s)))
+        }
+        20 => {
+            let c = *r.pick(&[0i32, 1, -1, 42, i32::MIN, i32::MAX, -255, 10, -10]);
+            (EventKind::ToolEnded { tool_id: x(), exit_code: c, duration_ms: num(r), artifacts: None }, format!("SToolEnded {} {}", coq_bool(c < 0), (c as i64).unsigned_abs()))
+        }
+        21 => {
+            let s = stext(r, 64);
+            (EventKind::ToolFailed { tool_id: x(), error: s.clone() }, format!("SToolFailed {}", cs(&s)))
+        }
+        22 => {
+            let st = r.below(3);
+            let name = ostext(r, 64);
+            let (ne, nr) = (if r.chance(1, 2) { 0 } else { r.range(1, 12) }, if r.chance(1, 2) { 0 } else { r.range(1, 3) });
+            (
+                EventKind::ProviderEvent {
+                    provider: x(),
+                    status: [ProviderEventStatus::Event, ProviderEventStatus::Done, ProviderEventStatus::InvalidJson][st as usize].clone(),
+                    event_name: name.clone(),
+                    data: None,
+                    raw: None,
+                    errors: (0..ne).map(|i| format!("e{i}")).collect(),
+                    response_errors: (0..nr).map(|i| format!("r{i}")).collect(),
+                },
+                format!("SProviderEvent {} {} {} {}", st, coq_ostr(&name), ne, nr),
+            )
+        }
+        23 => {
+            let m = ostext(r, 40);
+            let (i, b, t, tr) = (num(r), num(r), num(r), r.chance(1, 2));
+            (
+                EventKind::OpenResponsesRequest { endpoint: x(), model: m.clone(), request_index: i, kind: x(), body_artifact_id: x(), body_bytes: b, total_bytes: t, truncated: tr },
+                format!("SOpenResponsesRequest {} {} {} {} {}", i, coq_ostr(&m), b, t, coq_bool(tr)),
+            )
+        }
+        24 => {
+            let m = ostext(r, 40);
+            let i = num(r);
+            (EventKind::OpenResponsesRequestStarted { endpoint: x(), model: m.clone(), request_index: i, kind: x() }, format!("SOpenResponsesRequestStarted {} {}", i, coq_ostr(&m)))
+        }
+        25 => {
+            let rid = ostext(r, 16);
+            let (i, st) = (num(r), *r.pick(&[0u16, 7, 200, 404, 599, u16::MAX]));
+            (EventKind::OpenResponsesResponseHeaders { request_index: i, status: st, request_id: rid.clone(), content_type: None }, format!("SOpenResponsesResponseHeaders {} {} {}", i, st, coq_ostr(&rid)))
+        }
+        26 => {
+            let i = num(r);
+            (EventKind::OpenResponsesResponseFirstByte { request_index: i }, format!("SOpenResponsesResponseFirstByte {i}"))
+        }
+        27 => {
+            let s = stext(r, 64);
+            (EventKind::CheckpointCreated { checkpoint_id: x(), label: s.clone(), created_at_ms: 1, files: vec![], auto: false, tool_name: None }, format!("SCheckpointCreated {}", cs(&s)))
+        }
+        28 => {
+            let s = stext(r, 64);
+            (EventKind::CheckpointRewound { checkpoint_id: x(), label: s.clone(), files: vec![] }, format!("SCheckpointRewound {}", cs(&s)))
+        }
+        29 => {
+            let s = stext(r, 64);
+            (EventKind::CheckpointFailed { action: rip_kernel::CheckpointAction::Rewind, error: s.clone() }, format!("SCheckpointFailed {}", cs(&s)))
+        }
+        30 => {
+            let s = stext(r, 64);
+            (
+                EventKind::ToolTaskSpawned { task_id: x(), tool_name: s.clone(), args: json!({}), cwd: None, title: None, execution_mode: ToolTaskExecutionMode::Pty, origin_session_id: None, artifacts: None },
+                format!("SToolTaskSpawned {}", cs(&s)),
+            )
+        }
+        31 => {
+            let st = r.below(5);
+            (EventKind::ToolTaskStatus { task_id: x(), status: task_status(st), exit_code: None, started_at_ms: None, ended_at_ms: None, artifacts: None, error: None }, format!("SToolTaskStatus {st}"))
+        }
+        32 => {
+            let s = stext(r, 64);
+            (EventKind::ToolTaskCancelRequested { task_id: x(), reason: s.clone() }, format!("SToolTaskCancelRequested {}", cs(&s)))
+        }
+        33 => {
+            let s = stext(r, 64);
+            (EventKind::ToolTaskCancelled { task_id: x(), reason: s.clone(), wall_time_ms: None }, format!("SToolTaskCancelled {}", cs(&s)))
+        }
+        34 => {
+            let s = stext(r, 64);
+            (EventKind::ToolTaskOutputDelta { task_id: x(), stream: ToolTaskStream::Pty, chunk: s.clone(), artifacts: None }, format!("SToolTaskOutputDelta {}", cs(&s)))
+        }
+        35 => {
+            let s = stext(r, 64);
+            (EventKind::ToolTaskStdinWritten { task_id: x(), chunk_b64: s.clone() }, format!("SToolTaskStdinWritten {}", cs(&s)))
+        }
+        36 => {
+            let (a, b) = (*r.pick(&[0u16, 1, 24, 999, u16::MAX]), *r.pick(&[0u16, 80, u16::MAX]));
+            (EventKind::ToolTaskResized { task_id: x(), rows: a, cols: b }, format!("SToolTaskResized {a} {b}"))
+        }
+        _ => {
+            let s = stext(r, 64);
+            (EventKind::ToolTaskSignalled { task_id: x(), signal: s.clone() }, format!("SToolTaskSignalled {}", cs(&s)))
+        }
+    }
+}
+/// kinds whose summary is a field copied verbatim (no truncation in summary.rs)
+fn summary_is_verbatim(k: &EventKind) -> bool {
+    match k {
+        EventKind::ToolStarted { .. } | EventKind::ToolTaskSpawned { .. } | EventKind::ToolTaskSignalled { .. } => true,
+        EventKind::ProviderEvent { status, event_name, errors, response_errors, .. } => *status == ProviderEventStatus::Event && event_name.is_some() && errors.is_empty() && response_errors.is_empty(),
+        _ => false,
+    }
+}
+/// code points >= 128 of the frame's text that std's `{:?}` writes as \u{..} (read off the running std)
+fn unprintable(e: &Event) -> Vec<u64> {
+    let t = serde_json::to_string(e).unwrap();
+    let mut v: Vec<u64> = t.chars().filter(|c| (*c as u32) >= 128 && c.escape_debug().count() > 1).map(|c| c as u64).collect();
+    v.sort();
+    v.dedup();
+    v
 }
 
 fn gen_text(r: &mut Rng, big: bool) -> String {
@@ -416,6 +1036,7 @@ fn gen_case(r: &mut Rng, long: bool) -> Case {
     let mut seq: u64 = *r.pick(&[0u64, 0, 1, 7, 1000, u64::MAX - 3]);
     let mut evs = vec![];
     let big_budget = if r.chance(1, 6) { 3 } else { 0 };
+    let idspace = *r.pick(&[3u64, 3, 3, 3, 8, 40]);
     let mut bigs = 0;
     for i in 0..n {
         let s = match mode {
@@ -434,8 +1055,8 @@ fn gen_case(r: &mut Rng, long: bool) -> Case {
         if big {
             bigs += 1;
         }
-        let id = r.below(3);
-        let k = match r.below(16) {
+        let id = r.below(idspace);
+        let k = match r.below(18) {
             0 => K::SessionStarted(if r.chance(1, 3) { gen_ws(r) } else { gen_text(r, false) }),
             1 | 2 | 3 => K::OutputDelta(gen_text(r, false)),
             4 => K::SessionEnded,
@@ -449,6 +1070,8 @@ fn gen_case(r: &mut Rng, long: bool) -> Case {
             12 => K::TaskDelta(id, r.below(3), gen_text(r, big)),
             13 => K::CheckpointFailed,
             14 => K::ProviderEvent(r.chance(1, 4), if r.chance(1, 3) { r.range(1, 4) } else { 0 }, if r.chance(1, 3) { r.range(1, 4) } else { 0 }),
+            15 => K::JobSpawned(id),
+            16 => K::JobEnded(id),
             _ => K::Other(r.below(26 * 6)),
         };
         evs.push(Ev { seq: s, ts: 1000 + i * 3 + r.below(3), k, ident: i });
@@ -497,14 +1120,16 @@ fn corpus() -> Vec<Case> {
 fn main() {
     let a = parse_args();
     let mut res = RunResult::new("C20", &a);
-    res.rule = "cases = (capacities, frame sequence, probe seqs) from a seeded generator over 5 seq regimes (consecutive, gaps, repeats, extreme, decreasing) and 14 frame kinds incl. multi-byte and >8 KiB chunks; non-trivial = exercises eviction, truncation or non-consecutive seqs; distinct by hash of the canonical case".into();
-    let n = match a.tier.as_str() {
-        "thorough" => 6000,
-        _ => 700,
-    };
+    res.rule = "cases = (capacities, frame sequence, probe seqs) from a seeded generator over 5 seq regimes (consecutive, gaps, repeats, extreme, decreasing) and 16 frame kinds incl. multi-byte and >8 KiB chunks and up to 40 distinct tool/task/job ids; non-trivial = exercises eviction, truncation or non-consecutive seqs; distinct by hash of the canonical case.  Plus: frame streams for the three headless views of the real rip binary (timing frames, two providers, failures, several ends, lines that are no frames, four JSON layouts), and one frame per summary case over all 38 kinds with values around the 16/32/40/64-character cuts".into();
+    let thorough = a.tier == "thorough";
+    let n = if thorough { 6000 } else { 700 };
+    let n_views = if thorough { 3000 } else { 260 };
+    let n_summary = if thorough { 38 * 120 } else { 38 * 14 };
     let mut r = Rng::new(a.seed);
     let mut w = CaseWriter::new(&a.out, "Model.Tui", "check_case", "model_obs", 100);
     let mut wh = CaseWriter::new(&a.out.join("headless"), "Model.Headless", "check_case", "model_obs", 100).with_base(1_000_000);
+    let mut wv = CaseWriter::new(&a.out.join("views"), "Model.Views", "check_case", "model_obs", 60).with_base(2_000_000);
+    let mut ws = CaseWriter::new(&a.out.join("summary"), "Model.Summary", "check_case", "model_obs", 150).with_base(3_000_000);
     let have_rip = rip_bin().exists();
     if !have_rip {
         res.notes.push(format!("rip binary not found at {} — headless renderers not exercised", rip_bin().display()));
@@ -514,6 +1139,9 @@ fn main() {
     for i in 0..n {
         all.push(gen_case(&mut r, i % 10 == 9));
     }
+    // frame streams for the headless views: (case id in the report, lines)
+    let mut streams: Vec<(i64, Vec<VLine>, serde_json::Value)> = vec![];
+    let mut sized = 0;
     for (i, c) in all.iter().enumerate() {
         if i % 4 == 0 || i < 4 {
             let c3 = c.clone();
@@ -521,37 +1149,28 @@ fn main() {
             res.bump("render_passes");
             match std::panic::catch_unwind(move || (render_all(&c3), render_all(&c3))) {
                 Err(_) => res.oracle_violations.push(OracleViolation { case_id: i as i64, what: "rip_tui::render panicked".into(), class: "render_panic".into(), replay: case_json(c) }),
-                Ok((a1, a2)) => {
+                Ok((Err(e), _)) | Ok((_, Err(e))) => res.oracle_violations.push(OracleViolation { case_id: i as i64, what: format!("rip_tui::render wrote outside its frame area: {e}"), class: "render_outside_area".into(), replay: case_json(c) }),
+                Ok((Ok(a1), Ok(a2))) => {
                     if a1 != a2 {
                         res.oracle_violations.push(OracleViolation { case_id: i as i64, what: "rip_tui::render gave two different screens for the same state".into(), class: "render_nondeterministic".into(), replay: case_json(c) });
                     }
                 }
             }
         }
-        if have_rip && (i % 3 == 1 || i < 4) && c.evs.iter().all(|e| match &e.k { K::ToolStdout(_, s) | K::ToolStderr(_, s) | K::TaskDelta(_, _, s) => s.len() < 500, _ => true }) {
+        // all terminal sizes 0x0..200x60 on a sample: the S18 witness in full, some generated states on a grid
+        let step = if i == 3 { 1 } else if i >= 4 && i % 97 == 5 && !c.evs.is_empty() { if thorough { 1 } else { 3 } } else { 0 };
+        if step > 0 && sized < if thorough { 40 } else { 5 } {
+            sized += 1;
+            let c3 = c.clone();
             res.oracle_checks += 1;
-            res.bump("headless_runs");
-            match (run_headless(c), run_headless(c)) {
-                (Ok(v1), Ok(v2)) => {
-                    if v1 != v2 {
-                        res.oracle_violations.push(OracleViolation { case_id: i as i64, what: "headless renderers gave different output for the same frames".into(), class: "headless_nondeterministic".into(), replay: case_json(c) });
-                    }
-                    if let Some((_, body)) = v1.iter().find(|(h, _)| h.starts_with("=== view Output")) {
-                        match String::from_utf8(body.clone()) {
-                            Ok(text) if !a.oracle_only() => {
-                                let term = format!("{{| c_frames := {}; c_expect := {} |}}", coq_list(&c.evs, |e| coq_hk(&e.k)), coq_str(&text));
-                                let id = wh.push(term);
-                                if res.case_index.len() < 6000 {
-                                    res.case_index.insert(id.to_string(), case_json(c));
-                                }
-                            }
-                            Ok(_) => {}
-                            Err(_) => res.oracle_violations.push(OracleViolation { case_id: i as i64, what: "headless Output view wrote invalid UTF-8".into(), class: "headless_invalid_utf8".into(), replay: case_json(c) }),
-                        }
-                    }
-                }
-                (Err(e), _) | (_, Err(e)) => res.oracle_violations.push(OracleViolation { case_id: i as i64, what: format!("headless renderer crashed: {e}"), class: "headless_crash".into(), replay: case_json(c) }),
+            match std::panic::catch_unwind(move || render_sizes(&c3, step)) {
+                Err(_) => res.oracle_violations.push(OracleViolation { case_id: i as i64, what: "rip_tui::render panicked at some terminal size in 0x0..200x60".into(), class: "render_panic".into(), replay: case_json(c) }),
+                Ok(Err(e)) => res.oracle_violations.push(OracleViolation { case_id: i as i64, what: format!("rip_tui::render wrote outside its frame area: {e}"), class: "render_outside_area".into(), replay: case_json(c) }),
+                Ok(Ok(k)) => res.bump_by("render_sizes", k),
             }
+        }
+        if have_rip && (i % 3 == 1 || i < 4) && c.evs.iter().all(|e| match &e.k { K::ToolStdout(_, s) | K::ToolStderr(_, s) | K::TaskDelta(_, _, s) => s.len() < 500, _ => true }) {
+            streams.push((i as i64, c.evs.iter().map(|e| VLine::Frame(to_event(e), 0)).collect(), case_json(c)));
         }
         let c2 = c.clone();
         let got = std::panic::catch_unwind(move || {
@@ -598,10 +1217,112 @@ fn main() {
             res.samples.push(case_json(c));
         }
     }
+
+    // ---------------- headless views of the real binary: many streams per process, every batch run twice
+    if have_rip {
+        for j in 0..n_views {
+            let ls = gen_vcase(&mut r);
+            let js = vcase_json(&ls);
+            streams.push((2_000_000 + j as i64, ls, js));
+        }
+        for chunk in streams.chunks(48) {
+            let texts: Vec<Vec<String>> = chunk.iter().map(|(_, ls, _)| ls.iter().map(|l| l.text()).collect()).collect();
+            let both = (run_rip_batch(&texts), run_rip_batch(&texts));
+            // a batch that cannot be read back is re-run one stream per process to name the stream
+            let per_stream: Vec<(Result<Vec<ViewOut>, String>, Result<Vec<ViewOut>, String>)> = match both {
+                (Ok(v1), Ok(v2)) => v1.into_iter().zip(v2).map(|(x, y)| (Ok(x), Ok(y))).collect(),
+                _ => texts.iter().map(|t| (run_rip_batch(std::slice::from_ref(t)).map(|mut v| v.remove(0)), run_rip_batch(std::slice::from_ref(t)).map(|mut v| v.remove(0)))).collect(),
+            };
+            for ((cid, ls, js), pair) in chunk.iter().zip(per_stream) {
+                res.oracle_checks += 1;
+                res.bump("headless_streams");
+                let (v1, v2) = match pair {
+                    (Ok(v1), Ok(v2)) => (v1, v2),
+                    (Err(e), _) | (_, Err(e)) => {
+                        res.oracle_violations.push(OracleViolation { case_id: *cid, what: format!("headless renderer crashed: {e}"), class: "headless_crash".into(), replay: js.clone() });
+                        continue;
+                    }
+                };
+                if v1 != v2 {
+                    res.oracle_violations.push(OracleViolation { case_id: *cid, what: "headless renderers gave different output for the same frames".into(), class: "headless_nondeterministic".into(), replay: js.clone() });
+                }
+                if let Some((what, class)) = views_oracle(ls, &v1) {
+                    res.oracle_violations.push(OracleViolation { case_id: *cid, what, class, replay: js.clone() });
+                }
+                res.bump(&format!("stream_end={}", ["exhausted", "stopped", "refused"][v1[0].end as usize % 3]));
+                let (raw, out, met) = (enc_view(&v1[0]), String::from_utf8(v1[1].bytes.clone()), enc_view(&v1[2]));
+                let (Some(raw), Ok(out), Some(met)) = (raw, out, met) else {
+                    res.oracle_violations.push(OracleViolation { case_id: *cid, what: "a headless view wrote invalid UTF-8".into(), class: "headless_invalid_utf8".into(), replay: js.clone() });
+                    continue;
+                };
+                if a.oracle_only() {
+                    continue;
+                }
+                // Output view (Model/Headless.v): the frames up to the line the loop ended at
+                let frames: Vec<&Event> = ls.iter().map_while(|l| match l { VLine::Frame(e, _) => Some(e), VLine::Junk(_) => None }).collect();
+                let id = wh.push(format!("{{| c_frames := {}; c_expect := {} |}}", coq_list(&frames, |e| coq_hk(&e.kind)), coq_str(&out)));
+                if res.case_index.len() < 6000 {
+                    res.case_index.insert(id.to_string(), js.clone());
+                }
+                // raw + metrics views (Model/Views.v)
+                let lines = coq_list(ls, |l| match l {
+                    VLine::Frame(e, _) => format!("{{| l_text := {}; l_frame := Some {} |}}", coq_str(&l.text()), coq_mframe(e)),
+                    VLine::Junk(t) => format!("{{| l_text := {}; l_frame := None |}}", coq_str(t)),
+                });
+                let id = wv.push(format!("{{| c_lines := {}; c_raw := {}; c_metrics := {} |}}", lines, coq_list_n(&raw), coq_list_n(&met)));
+                if res.case_index.len() < 6000 {
+                    res.case_index.insert(id.to_string(), js.clone());
+                }
+                if res.samples.len() < 5 && *cid >= 2_000_000 && v1[2].end == 1 {
+                    res.samples.push(json!({"lines": js["lines"], "metrics_view": String::from_utf8_lossy(&v1[2].bytes)}));
+                }
+            }
+        }
+    }
+
+    // ---------------- summary.rs: event_type / event_summary on every kind
+    for j in 0..n_summary {
+        let tag = j as u64 % N_KINDS;
+        let (kind, term) = gen_summary(&mut r, tag);
+        let mk = |seq: u64, ts: u64, id: &str, sid: &str| Event { id: id.into(), session_id: sid.into(), timestamp_ms: ts, seq, kind: kind.clone() };
+        let (e1, e2) = (mk(0, 1, "e1", "s1"), mk(u64::MAX, 77, "another id €", ""));
+        let cid = 3_000_000 + j as i64;
+        let js = json!({"kind_number": tag, "frame": serde_json::to_value(&e1).unwrap()});
+        res.oracle_checks += 1;
+        res.bump("summary_frames");
+        let (f1, f2) = (e1.clone(), e2.clone());
+        let got = std::panic::catch_unwind(move || ((rip_tui::verif::event_type(&f1).to_string(), rip_tui::verif::event_summary(&f1)), (rip_tui::verif::event_type(&f2).to_string(), rip_tui::verif::event_summary(&f2)), rip_tui::verif::event_summary(&f1)));
+        let ((ty, su), second, again) = match got {
+            Ok(x) => x,
+            Err(_) => {
+                res.oracle_violations.push(OracleViolation { case_id: cid, what: "event_type / event_summary panicked".into(), class: "summary_panic".into(), replay: js });
+                continue;
+            }
+        };
+        if second != (ty.clone(), su.clone()) || again != su {
+            res.oracle_violations.push(OracleViolation { case_id: cid, what: "event_summary depends on more than the frame's payload (seq, time, ids) or differs between two calls".into(), class: "summary_not_a_function_of_the_frame".into(), replay: js.clone() });
+        }
+        let tag_name = serde_json::to_value(&e1).unwrap()["type"].as_str().unwrap_or("").to_string();
+        if ty != tag_name {
+            res.oracle_violations.push(OracleViolation { case_id: cid, what: format!("event_type says {ty:?} for a frame whose type is {tag_name:?}"), class: "summary_wrong_type".into(), replay: js.clone() });
+        }
+        if !summary_is_verbatim(&kind) && su.chars().count() > 652 {
+            res.oracle_violations.push(OracleViolation { case_id: cid, what: format!("event_summary is {} characters long", su.chars().count()), class: "summary_unbounded".into(), replay: js.clone() });
+        }
+        if !a.oracle_only() {
+            let id = ws.push(format!("{{| c_unp := {}; c_kind := {}; c_type := {}; c_summary := {} |}}", coq_list_n(&unprintable(&e1)), term, coq_str(&ty), coq_str(&su)));
+            if res.case_index.len() < 8000 {
+                res.case_index.insert(id.to_string(), js);
+            }
+        }
+    }
+
     w.flush();
     wh.flush();
+    wv.flush();
+    ws.flush();
     res.distinct_nontrivial = distinct.count();
-    res.case_files = w.files.iter().chain(wh.files.iter()).map(|p| p.display().to_string()).collect();
+    res.case_files = w.files.iter().chain(wh.files.iter()).chain(wv.files.iter()).chain(ws.files.iter()).map(|p| p.display().to_string()).collect();
     res.write(&a.out);
     println!("c20: {} cases, {} distinct non-trivial, {} oracle violations, {} panics", res.evaluations, res.distinct_nontrivial, res.oracle_violations.len(), res.impl_panics);
 }
